@@ -78,6 +78,7 @@ type Contract struct {
 	Cuts        []*Clause
 	Running     []*Clause
 	AtCalls     []*Clause
+	Forbids     []*Clause // forbid <site substring> [label;tags]: a call whose source text contains it is a violation
 	Marks       []string // call-site patterns: the heap after such a call returns is what marked(e) reads
 	ParamNames  []string
 	ParamTypes  []string
@@ -122,7 +123,7 @@ type PkgSpec struct {
 }
 
 var clauseKW = map[string]bool{"requires": true, "ensures": true, "modifies": true, "loop": true, "allocates": true,
-	"params": true, "vars": true, "pure": true, "trusted": true, "bounded": true, "assumes": true, "maypanic": true, "checks": true, "trustframe": true, "callers": true, "coupling": true, "model": true, "cut": true, "running": true, "atcall": true, "mark": true}
+	"params": true, "vars": true, "pure": true, "trusted": true, "bounded": true, "assumes": true, "maypanic": true, "checks": true, "trustframe": true, "callers": true, "coupling": true, "model": true, "cut": true, "running": true, "atcall": true, "mark": true, "forbid": true}
 
 var headRe = regexp.MustCompile(`^(func|type|lemma|canary|refine)\s+(.*)$`)
 var tagsRe = regexp.MustCompile(`\[(C[0-9]+(?:\s*,\s*C[0-9]+)*)\]`)
@@ -354,6 +355,21 @@ func ParseContractFile(path, pkgPath string) (*PkgSpec, error) {
 			c.Raw = tail
 			cur.AtCalls = append(cur.AtCalls, c)
 			curClause = c
+		case "forbid":
+			// forbid <site substring> [label;tags]
+			rest := strings.TrimSpace(strings.TrimPrefix(text, "forbid"))
+			c := &Clause{Kind: "forbid", Line: ln + 1, Tags: cur.Tags, Label: fmt.Sprintf("forbid%d", len(cur.Forbids))}
+			if i := strings.LastIndex(rest, " ["); i > 0 && strings.HasSuffix(rest, "]") {
+				lab := rest[i+2 : len(rest)-1]
+				rest = strings.TrimSpace(rest[:i])
+				if k := strings.Index(lab, ";"); k >= 0 {
+					_, c.Tags = parseTags("[" + lab[k+1:] + "]")
+					lab = lab[:k]
+				}
+				c.Label = lab
+			}
+			c.Site = rest
+			cur.Forbids = append(cur.Forbids, c)
 		case "mark":
 			cur.Marks = append(cur.Marks, strings.TrimSpace(strings.TrimPrefix(text, "mark")))
 		case "running":
